@@ -68,6 +68,9 @@ T = {
     "C20": (True, "exploration", "law monitor over generated (data, prediction) pairs per shipped loss; residual log through the public residual_fn= wrapper, recomputed from independent simulations; before/after snapshot of the caller's model",
             "Every shipped loss: smallest at equality and not rewarding magnitude; every logged residual of real fits (steady state / time course / protocol, L-BFGS-B / Nelder-Mead, scaled or not) equals the loss of an independent prediction; reported loss = recomputed loss <= start loss; caller's model untouched with as_deepcopy=True. One open finding (losses.mean).",
             "Trusted: independent Simulator run on a fresh deep copy; the shipped loss function applied to it is the oracle for residual equality."),
+    "C17": (True, "exploration", "independent SBML interpreter on libsbml ASTNodes (mon/sbml_interp.py) vs the imported model at random states; ablation-chain attribution (plain identifiers -> no species initial assignments -> uniform declarations) for the open pysbml findings; pair sessions in forked children with per-document control sessions",
+            "Generated L3V2 documents (compartments != 1, amount / concentration / assignment-defined species, function definitions, chained rules, piecewise / power / transcendental laws, local parameters, time, fractional and rule-defined stoichiometries, hostile identifiers); initial values, parameter values, rule values and species derivatives compared; two documents per process (same stem, colliding stems, one-digit difference, re-read) must not interfere.",
+            "Trusted: libsbml's parser and the ~250-line interpreter. The imported variable of a species may be its amount or its concentration (inferred from the initial value). Three open findings located in the third-party pysbml package."),
 }
 PENDING_REASON = "check not built yet in this session (work in progress; design in DESIGN.md section 4)"
 
